@@ -242,6 +242,46 @@ fn payment_cases(ctx: &mut Ctx, idx: usize, w: &World, w2: &World) {
     let _ = pk_args as fn(&crate::wire::PkD) -> String;
 }
 
+/// The revocation-lock commitment must *bind* the lock, or "a pair that opens the commitment" says nothing about
+/// the old state's lock.  For parameters produced by the library's own generator (`PedersenParameters::new`, as
+/// `merchant::Config::new` uses it) under a stream of distinct draws, `h` and `g` must not stand in a publicly known
+/// relation; if they do (`h = ±g`), the attack is run through the real API: an unrelated valid pair with the
+/// blinding factor shifted by the difference of the locks is offered to `complete_payment`.
+fn generated_parameters_case(ctx: &mut Ctx, idx: usize, w: &World) {
+    if !ctx.begin_case(idx, "generated-revocation-parameters") {
+        return;
+    }
+    let book = ctx.book.clone();
+    let mut rng = ScriptedRng::new(ctx.prng.gen(), book.clone());
+    let pp = zkchannels_crypto::pedersen::PedersenParameters::<bls12_381::G1Projective, 1>::new(&mut rng);
+    let (h, gs) = match crate::props::c09::params_dlogs(&book, &pp) { Some(x) => x, None => { ctx.broken("generated revocation parameters have unknown discrete logs"); return; } };
+    let g = gs[0];
+    ctx.evals += 1;
+    let sign = if h == g { Some(Scalar::one()) } else if h == -g { Some(-Scalar::one()) } else { None };
+    ctx.count(&format!("generated-revocation-parameters:{}", if sign.is_some() { "H-IS-PLUS-MINUS-G" } else { "independent" }));
+    let sign = match sign { Some(s) => s, None => return };
+    // exhibit it on a payment
+    let w3 = match world_from(ctx, &w.kpd, h, g, &w.rpd) { Some(w) => w, None => return };
+    let a = Agreed::random(ctx);
+    let mut s = match open_session(ctx, &w3, &a) { Some(s) => s, None => return };
+    let amt = valid_amount(ctx, s.cb, s.mb);
+    let ready = s.ready.take().unwrap();
+    let run = match pay_start(ctx, &w3, &a, ready, amt) { StartOutcome::Started(r) => *r, _ => return };
+    let out = match allow_check(ctx, &w3, &run.nonce_s, amt, &a.ctx_bytes, &run.d, Some(true), "honest") { Some(o) => o, None => return };
+    let (unrevoked, _closing) = match out.accepted { Some(x) => x, None => return };
+    let mut rng = ScriptedRng::new(ctx.prng.gen(), book.clone());
+    let decoy = zkabacus_crypto::internal::test_new_revocation_pair(&mut rng);
+    let decoy_lock = s_at(&wire::ser(&decoy), 0).unwrap();
+    // C = bf·h + lock·g = bf'·h + lock'·g  with  bf' = bf + (lock - lock')·(g/h),  g/h = ±1
+    let bf2 = run.bf_rl + (run.old_ms[2] - decoy_lock) * sign;
+    let bff: RevocationLockBlindingFactor = wire::de(&wire::enc_s(&bf2)).unwrap();
+    let issued = unrevoked.complete_payment(&mut rng, &decoy, &bff).is_ok();
+    ctx.violation(
+        &format!("the generated revocation-commitment parameters have h = {}g, so the commitment does not bind the lock: complete_payment {} a pay token for an unrelated pair whose secret is not the preimage of the old state's lock", if sign == Scalar::one() { "" } else { "-" }, if issued { "issued" } else { "refused" }),
+        json!({"class": "generated-revocation-parameters-not-binding", "token_issued_for_unrelated_pair": issued, "decoy_lock": hex_s(&decoy_lock), "old_lock": hex_s(&run.old_ms[2])}),
+    );
+}
+
 pub fn run(ctx: &mut Ctx) {
     let mut idx = 0;
     for _ in 0..(if ctx.thorough() { 6 } else { 1 }) {
@@ -254,4 +294,5 @@ pub fn run(ctx: &mut Ctx) {
     for k in 0..n {
         payment_cases(ctx, 1024 * ctx.nshards + k, &w, &w2);
     }
+    generated_parameters_case(ctx, 4096 * ctx.nshards + ctx.shard, &w);
 }
